@@ -80,6 +80,12 @@ func (c ControlHandler) HandlePing(h ws.Header) error {
 		})
 	}
 
+	if h.Length > ws.MaxControlFramePayloadSize {
+		// Header was not checked by the caller: do not allocate (and echo)
+		// whatever length a peer announces.
+		return ws.ErrProtocolControlPayloadOverflow
+	}
+
 	// In other way reply with Pong frame with copied payload.
 	p := pbytes.GetLen(int(h.Length) + ws.HeaderSize(ws.Header{
 		Length: h.Length,
@@ -116,6 +122,10 @@ func (c ControlHandler) HandlePong(h ws.Header) error {
 		return nil
 	}
 
+	if h.Length > ws.MaxControlFramePayloadSize {
+		return ws.ErrProtocolControlPayloadOverflow
+	}
+
 	buf := pbytes.GetLen(int(h.Length))
 	defer pbytes.Put(buf)
 
@@ -150,6 +160,10 @@ func (c ControlHandler) HandleClose(h ws.Header) error {
 		return ClosedError{
 			Code: ws.StatusNoStatusRcvd,
 		}
+	}
+
+	if h.Length > ws.MaxControlFramePayloadSize {
+		return ws.ErrProtocolControlPayloadOverflow
 	}
 
 	// Prepare bytes both for reading reason and sending response.
